@@ -355,7 +355,11 @@ def check(fx, rep, tier):
     for name, readers in sorted(found5.items()):
         row = rows5.get(name)
         rep.fn(name)
-        ok = row is not None and row[1] == readers
+        def _norm(rs):
+            # `usize::from(w)` and `w.into()` are one conversion, spelt from either side
+            return sorted({r.replace("try_into->", "try_from->").replace("into->", "from->") for r in rs.split(",") if r})
+
+        ok = row is not None and _norm(row[1]) == _norm(readers)
         rep.oblige(
             ok,
             "R11.5",
